@@ -184,4 +184,48 @@ def r4_literal_positions(chk, rule='C15.R4'):
            'escaped characters' % [o[1] for o in outs])
 
 
-RULES = [r1_gated_stores, r2_switch_plumbing, r3_text_handlers, r4_literal_positions]
+# fields other than the four texts that the pinned code emits only with texts, audited one by one
+ALSO_GATED = {'lastupdated': 'LAST-UPDATED sits in the module-identity text block of genModuleIdentity; the revision '
+                             'list itself (with its time stamps) is emitted unconditionally'}
+
+
+def r7_only_texts_are_gated(chk, rule='C15.R7'):
+    """the text switch controls the descriptive fields and nothing else"""
+    model = chk.model
+    ci = model.cls(INTER, 'IntermediateCodeGen')
+    mod = ci.mod
+    chk.doc(rule, 'no store of a record field other than description/reference/organization/contactinfo is '
+                  'control-dependent on self.genRules["text"]: units, status, syntax, defaults, revisions ... are '
+                  'emitted whether or not texts were requested')
+    n = 0
+    for mname, fn in sorted(ci.methods.items()):
+        for s in ir.record_stores(fn):
+            if not s.key or s.key[0] in GATED or s.key[0] in ALSO_GATED:
+                continue
+            if len(s.key) >= 2 and s.key[-1] in GATED:
+                continue   # e.g. record['revisions'][i]['description']
+            n += 1
+            gated = [norm(t) for t, b in s.guards if any(mentions_text_switch(c) for c in ir.conjuncts(t))]
+            chk.ob(rule, 'IntermediateCodeGen.%s/%s' % (mname, '.'.join(str(k) for k in s.key)), not gated,
+                   where(mod, s.node), 'field %r is only stored when texts are requested (guard %s)' % (s.key[0], gated))
+    chk.floor(rule, 60, 'non-text record stores')
+
+
+def r5_text_tokens_verbatim(chk):
+    """the parser hands the text between the quotes to the generators unchanged (C02.R4 under this property)"""
+    from rules.C02 import r4_token_values
+    r4_token_values(chk, rule='C15.R5')
+
+
+def r6_text_field_provenance(chk):
+    """description/reference/units/... of a record come from that clause of the statement (C03.R4 restricted to the
+    text-bearing fields)"""
+    from rules.C03 import r4_field_provenance
+    r4_field_provenance(chk, rule='C15.R6', fields=PROVENANCE_FIELDS)
+
+
+PROVENANCE_FIELDS = ('description', 'reference', 'units', 'organization', 'contactinfo', 'displayhint', 'lastupdated',
+                     'revisions', 'productrelease')
+
+RULES = [r1_gated_stores, r2_switch_plumbing, r3_text_handlers, r4_literal_positions, r5_text_tokens_verbatim,
+         r6_text_field_provenance, r7_only_texts_are_gated]
